@@ -33,7 +33,19 @@ pub struct Entry { pub val: Val, pub deadline: Option<u64> }
 pub struct Db { pub map: BTreeMap<Bytes, Entry> }
 
 #[derive(Clone, Debug)]
-pub struct Model { pub dbs: Vec<Db> }
+pub struct Model {
+    pub dbs: Vec<Db>,
+    /// realtime clock = virtual monotonic clock + real_off (ns); set by the executor
+    pub real_off: i64,
+    /// the last transition met a case where Redis versions differ in the resulting state: the
+    /// executor re-reads the stored state without reporting anything
+    pub soft_resync: bool,
+}
+
+/// Reply predicate with a description (for shapes the plain variants cannot express).
+#[derive(Clone)]
+pub struct Pred { pub kind: &'static str, pub desc: String, pub f: std::rc::Rc<dyn Fn(&R) -> bool> }
+impl std::fmt::Debug for Pred { fn fmt(&self, f: &mut std::fmt::Formatter<'_>) -> std::fmt::Result { write!(f, "Pred({})", self.desc) } }
 
 /// What the model accepts as a reply.
 #[derive(Clone, Debug)]
@@ -57,6 +69,7 @@ pub enum Exp {
     PickMany { from: Vec<Bytes>, n: usize, distinct: bool },
     /// no comparison (don't-care instant)
     Any,
+    Pred(Pred),
 }
 
 #[derive(Clone, Debug)]
@@ -71,6 +84,7 @@ fn feq(a: f64, b: f64) -> bool { a == b || (a.is_nan() && b.is_nan()) }
 pub fn matches(exp: &Exp, actual: &R) -> bool {
     match exp {
         Exp::Any => true,
+        Exp::Pred(p) => (p.f)(actual),
         Exp::Is(r) => r == actual,
         Exp::Err => actual.is_err(),
         Exp::Unordered(v) => match actual {
@@ -121,6 +135,7 @@ pub fn show_exp(e: &Exp) -> String {
         Exp::PickOne(f) => format!("one of {} members", f.len()),
         Exp::PickMany { from, n, distinct } => format!("{} {}members of {}", n, if *distinct { "distinct " } else { "" }, from.len()),
         Exp::Any => "any".into(),
+        Exp::Pred(p) => p.desc.clone(),
     }
 }
 pub fn exp_kind(e: &Exp) -> &'static str {
@@ -136,6 +151,7 @@ pub fn exp_kind(e: &Exp) -> &'static str {
         Exp::PickOne(_) => "bulk",
         Exp::PickMany { n, .. } => if *n == 0 { "emptyarr" } else { "arr" },
         Exp::Any => "any",
+        Exp::Pred(p) => p.kind,
     }
 }
 
@@ -241,7 +257,7 @@ fn in_bounds(s: f64, lo: Bound, hi: Bound) -> bool {
 enum Get<'a> { Missing, Wrong, Got(&'a mut Entry) }
 
 impl Model {
-    pub fn new() -> Model { Model { dbs: (0..16).map(|_| Db::default()).collect() } }
+    pub fn new() -> Model { Model { dbs: (0..16).map(|_| Db::default()).collect(), real_off: 0, soft_resync: false } }
 
     /// Remove every key of `db` whose deadline has passed (visible iff now < deadline).
     pub fn purge(&mut self, db: usize, now: u64) {
@@ -561,7 +577,7 @@ impl Model {
                     Some(_) => Exp::Err,
                 }
             }
-            _ => return None,
+            _ => return super::stream::expect(self, db, name, a, now),
         })
     }
 
@@ -703,7 +719,7 @@ impl Model {
                     self.drop_if_empty(db, &a[1]);
                 }
             }
-            _ => {}
+            _ => { super::stream::transition(self, db, name, a, now, actual); }
         }
     }
 
